@@ -17,6 +17,7 @@ import zipfile
 
 from .. import gen
 from ..engine import generic_shrink
+from ..world import target_kwargs
 from .common import (Sim, SimStore, run_once, violation, finish, compare_results, shape_stats, set_knob, NEVER_FLUSH,
                      components)
 
@@ -236,7 +237,7 @@ def build_channel(sim, triples, ch, tag):
 
 def _kw(scen, **extra):
     kw = {}
-    kw.update(copy.deepcopy(scen["target"]))
+    kw.update(target_kwargs(scen["target"]))
     kw.update(copy.deepcopy(scen["options"]))
     kw["namespaces_dict"] = copy.deepcopy(scen["ns"])
     kw.update(extra)
